@@ -809,6 +809,10 @@ def _uses_allow_substitution(fn, def_st, E, loads) -> bool:
     for x in ast.walk(E):
         if isinstance(x, (ast.List, ast.Dict, ast.Set, ast.ListComp, ast.DictComp, ast.SetComp)):
             fresh = True
+        if isinstance(x, (ast.BinOp, ast.UnaryOp)) and not all(
+                isinstance(y, (ast.Constant, ast.operator, ast.unaryop, ast.expr_context, ast.BinOp, ast.UnaryOp))
+                for y in ast.walk(x)):
+            fresh = True       # arithmetic on arrays builds a new array at every evaluation
         if isinstance(x, ast.GeneratorExp):
             fresh = one_shot = True
         if isinstance(x, ast.Call):
@@ -895,9 +899,13 @@ def _uses_allow_substitution(fn, def_st, E, loads) -> bool:
     return True
 
 
-def inline_new_locals(fn, ref_names: set[str], ref_sigs: set[str], mutated: set[str]) -> int:
+def inline_new_locals(fn, ref_names: set[str], ref_sigs: set[str], mutated: set[str], only_aliases: bool = False) -> int:
     from .alpha import function_locals, signatures
     done = 0
+    if not only_aliases:
+        # plain aliases (`v = name`) first: afterwards a store made through the alias is a store on the name itself,
+        # which the checks below must see when they look for what can change between a binding and its uses
+        done += inline_new_locals(fn, ref_names, ref_sigs, mutated, only_aliases=True)
     for _ in range(40):
         locs = function_locals(fn) - ref_names
         if not locs:
@@ -921,6 +929,8 @@ def inline_new_locals(fn, ref_names: set[str], ref_sigs: set[str], mutated: set[
             if def_st is None:
                 continue
             E = def_st.value
+            if only_aliases and not isinstance(E, ast.Name):
+                continue
             if not _effect_free(E):
                 continue
             # every load of v, none in a deferred scope
